@@ -878,6 +878,12 @@ def rely_havoc(ex, st, fr, what):
 # --------------------------------------------------------------------------- library modules
 def call_module(ex, name, pos, kw, st, fr, e):
     h = st.heap
+    if name.startswith(('logging.', 'warnings.')):
+        # diagnostics: no effect on the simulation state (a logger object is again a handle of the same kind)
+        ex.notes.add('logging / warnings calls have no effect on the simulation state')
+        if name.endswith(('.getLogger', '.getChild')):
+            return [(ModuleRef('logging.logger'), st)]
+        return [(vnone(), st)]
     if name == 'bisect.insort':
         l, x = pos
         lt = ex.lt_formula(st, l.ty.elem)
